@@ -134,8 +134,8 @@ contract(M + 'get_mev_for_nested', P, nla_uf=True, replay=_REPLAY_NESTED,
 # lognested = logmev(util, get_mev_for_nested(util, availability, nests), availability, choice); nested = mev(the same).
 # ONE postcondition over util / availability / nests: the log-sum-exp kernel with  h_k = V_k + c05c_lng(nests, util, av, k),
 # where c05c_lng is DEFINED in specs/c05c_specs.py (the nested-logit term of the nest of k, 0 outside every nest).
-_COVER = (f"forall(lambda q: {_IN_ALONE.replace('x in', 'keys_of(util)[q] in')} or exists(lambda a: exists(lambda p: "
-          f"keys_of(util)[q] == {T}[a].list_of_alternatives[p], 0, len({T}[a].list_of_alternatives)), 0, len({T})), 0, len(util))")
+_COVER = (f"forall(lambda q: {_IN_ALONE.replace('x in', 'c05c_key(util, q) in')} or exists(lambda a: exists(lambda p: "
+          f"c05c_key(util, q) == {T}[a].list_of_alternatives[p], 0, len({T}[a].list_of_alternatives)), 0, len({T})), 0, len(util))")
 _REQ_L = dict(_REQ)
 _REQ_L['every_alternative_alone_or_in_a_nest'] = _COVER
 
@@ -147,11 +147,11 @@ def _closed(text: str) -> str:
 
 
 _LNG = lambda k: f"c05c_lng(nests, util, {AV}, {k})"       # noqa: E731
-_KU = 'keys_of(util)[q]'
+_KU = 'c05c_key(util, q)'
 _CHN = 'int(c05c_num(choice))'
 _HN = lambda k: f"(c05c_val(util[{k}]) + {_LNG(k)})"        # noqa: E731
 _AVN = f"typed({AV}, 'dict[int, Expression]')"
-_SAMEN = f'forall(lambda q: keys_of(util)[q] in {AV}, 0, len(util))'
+_SAMEN = f'forall(lambda q: c05c_key(util, q) in {AV}, 0, len(util))'
 _T_AV_N = f"ite(c05c_val({_AVN}[{_KU}]) != 0.0, app('numpy.exp', {_HN(_KU)} - {_HN(_CHN)}), 0.0)"
 _T_FULL_N = f"app('numpy.exp', {_HN(_KU)} - {_HN(_CHN)})"
 _A_AV_N = f"{AV} is not None and {_CHN} in util and {_CHN} in {AV} and {_SAMEN} and c05c_val({_AVN}[{_CHN}]) != 0.0"
@@ -185,11 +185,43 @@ def _closed_form(wrap: bool) -> dict:
     }
 
 
+# C06 corollaries of the closed form: with no nest at all (every alternative alone) or with every nest parameter of value one
+# the value is the LOGIT kernel over the same utilities and availabilities - the very formula proved for models.loglogit /
+# models.logit (contracts/c05c_builders.py), so the two models have the same value.
+_ALL_ONE = f"(len({T}) == 0 or forall(lambda q: c05c_val({T}[q].nest_param) == 1, 0, len({T})))"
+_LOGIT_T_AV = Bd._rename(N._T_AV, 'av', AV)
+_LOGIT_T_FULL = N._T_FULL
+_STEP_ONE = (f"c05c_cut_with('step5:closed-form-vanishes-without-nests-or-with-unit-nest-parameters', {_DEF}, lambda: "
+             f"implies({_ALL_ONE}, forall(lambda x: {_LNG('x')} == 0, ty='int')))")
+
+
+# terms of the sum in the contract of logmev / mev, written over the locals of lognested / nested
+_TM_AV = Bd._rename(Bd._T_AV_M, 'av', AV)
+_TM_FULL = Bd._T_FULL_M
+_AGREE = []
+for _tag, _cond, _tm, _tn in (('closed-form', _A_AV_N, _TM_AV, _T_AV_N), ('closed-form-full', _A_FULL_N, _TM_FULL, _T_FULL_N),
+                              ('logit', f'{_ALL_ONE} and {_A_AV_N}', _TM_AV, _LOGIT_T_AV),
+                              ('logit-full', f'{_ALL_ONE} and {_A_FULL_N}', _TM_FULL, _LOGIT_T_FULL)):
+    _AGREE.append(f"c05c_cut('step6:{_tag}:terms-agree', lambda: implies({_cond}, forall(lambda q: {_tm} == {_tn}, 0, len(util))))")
+    _AGREE.append(f"c05c_cut('step7:{_tag}:sums-agree', lambda: implies({_cond}, sum_range(lambda q: {_tm}, 0, len(util)) == "
+                  f"sum_range(lambda q: {_tn}, 0, len(util))))")
+
+
+def _reduces(wrap: bool) -> dict:
+    pre, post = ("app('numpy.exp', ", ')') if wrap else ('', '')
+    return {
+        'reduces_to_logit': f"implies({_ALL_ONE} and {_A_AV_N}, c05c_val(result) == {pre}-app('numpy.log', "
+                            f"sum_range(lambda q: {_LOGIT_T_AV}, 0, len(util))){post})",
+        'reduces_to_logit_full_choice_set': f"implies({_ALL_ONE} and {_A_FULL_N}, c05c_val(result) == {pre}-app('numpy.log', "
+                                            f"sum_range(lambda q: {_LOGIT_T_FULL}, 0, len(util))){post})",
+    }
+
+
 for fn, wrap in (('lognested', False), ('nested', True)):
     contract(M + fn, ['C05', 'C06'], nla_uf=True,
              types={'util': 'dict[int, Expression]', 'availability': 'dict[int, Expression] | None', 'nests': 'NestsForNestedLogit'},
              requires=_REQ_L, modifies=[], may_raise=['BiogemeError'],
              raises={'TypeError': N._NOT_OPERAND.format('choice')},
-             hints=_STEPS,
-             ensures=_closed_form(wrap),
+             hints=_STEPS + [_STEP_ONE] + _AGREE,
+             ensures={**_closed_form(wrap), **_reduces(wrap)},
              min_obligations=4, replay=_REPLAY_NESTED)
